@@ -103,21 +103,9 @@ public:
 
     opval_t* MoveCodeBack(size_t backCount) override
     {
-        const size_t pos = curop - prevop;
-
-        size_t cback = backCount;
-        while (cback > prevopSize) {
-            cback -= prevopSize;
-        }
-
         opval_t* op = curop;
-        if (cback > pos) {
-            curop = prevop_last_ptr() - cback;
-        }
-        else {
-            curop -= cback;
-        }
-
+        const size_t pos = curop - prevop;
+        curop = prevop + ((pos + prevopSize - (backCount % prevopSize)) % prevopSize);
         return op;
     }
 
@@ -137,44 +125,23 @@ public:
 
     void GetValueAt(uintptr_t backOffset, void* value, size_t size) override
     {
-        size_t csize = size;
-        while (csize > prevopSize) {
-            csize -= prevopSize;
-        }
-
-        const size_t cback = backOffset > prevopSize ? prevopSize : backOffset;
+        // read `size` bytes starting `backOffset` bytes behind the cursor, wrapping around the ring
         const size_t pos = curop - prevop;
-        opval_t* off = curop;
-        if (cback > pos) {
-            off = prevop_last_ptr() - cback;
-        } else {
-            off = curop - cback;
+        const size_t start = (pos + prevopSize - (backOffset % prevopSize)) % prevopSize;
+        for (size_t i = 0; i < size; ++i) {
+            static_cast<opval_t*>(value)[i] = prevop[(start + i) % prevopSize];
         }
-
-        const size_t remainingLast = prevopSize - pos;
-        if (csize > remainingLast)
-        {
-            memcpy(value, off, remainingLast);
-            memcpy(value, prevop, csize - remainingLast);
-        }
-        else {
-            memcpy(value, off, csize);
-        }
-
     }
 
     void WriteOpcodeValue(const void* value, size_t size) override
     {
         info.progLength += size;
 
-        size_t csize = size;
-        while (csize > 0)
+        // byte by byte so that a value crossing the end of the ring wraps instead of running past it
+        for (size_t i = 0; i < size; ++i)
         {
-            const size_t bytesToWrite = size > prevopSize ? prevopSize : size;
-            memcpy(curop, value, bytesToWrite);
-            const size_t newPos = (curop + bytesToWrite) - prevop;
-            curop = prevop + (newPos % prevopSize);
-            csize -= bytesToWrite;
+            *curop = static_cast<const opval_t*>(value)[i];
+            curop = prevop + ((curop - prevop + 1) % prevopSize);
         }
     }
 
